@@ -125,7 +125,8 @@ pub struct Cfg {
 }
 
 const NAMES: &[&str] = &["a", "Sub", "S2", "x y", "名", ".hid", "d.e", "m", "@E", "e_f", "tr ", " ld"];
-const FILES: &[&str] = &["one.bin", "two.txt", "f.bin.lz", "g.cmp", "h.cms", "q.bin", "t.txt.lz", "データ.bin", "e_one.bin", "noext"];
+// "m.bin" / "Sub.txt": siblings of the directories "m" / "Sub" that sort before "m/..." byte-wise ('.' < '/')
+const FILES: &[&str] = &["one.bin", "two.txt", "f.bin.lz", "g.cmp", "h.cms", "q.bin", "t.txt.lz", "データ.bin", "e_one.bin", "noext", "m.bin", "Sub.txt"];
 const PATTERNS: &[Option<&str>] = &[None, Some("*"), Some("*.bin"), Some("*/*"), Some("**/*.txt"), Some("**/*.bin.lz"), Some("S*/*"), Some("?.bin")];
 
 fn gen_cfg(prop: &str, tier: Tier, run_seed: u64) -> Value {
